@@ -90,6 +90,8 @@ Definition rhdr_set_close (h : rhdr) : rhdr := {| rh_close := true; rh_conn := r
 (* header.ResetConnectionClose: only when the flag is set: clear it and delete every Connection entry *)
 Definition rhdr_reset_close (h : rhdr) : rhdr :=
   if rh_close h then {| rh_close := false; rh_conn := None |} else h.
+(* ResponseHeader.Del("Connection") -> del: connectionClose = false and every Connection entry of h.h removed *)
+Definition rhdr_del (h : rhdr) : rhdr := {| rh_close := false; rh_conn := None |}.
 (* header.setNonSpecial(strConnection, v): setArgBytes replaces the first entry or appends *)
 Definition rhdr_set_nonspecial (h : rhdr) (v : bytes) : rhdr := {| rh_close := rh_close h; rh_conn := Some v |}.
 (* ResponseHeader.Set / Add / SetBytesKV ... ("Connection", v) -> setSpecialHeader:
